@@ -1595,6 +1595,15 @@ func (g *gen) c13Random() *tcase {
 				}
 			}
 		}
+		if k == 0 && g.chance(0.05) {
+			// a double-brace action that is not spok's (`docker --format '{{json .State}}'`), next to a reference to a variable:
+			// the spokfile does not load — the reference is never handed to the shell unexpanded
+			src := g.pick([]string{"docker inspect --format '{{json .State}}' x", "echo {{ if }}", "echo {{.}} {{end}}", "echo {{printf \"%s\" .X | nosuch}}"})
+			if len(dn) > 0 {
+				src += " {{." + dn[g.rng.Intn(len(dn))] + "}}"
+			}
+			t.cmds = append(t.cmds, command{raw: true, src: src, stdout: "", status: 0})
+		}
 		tc.stmts = append(tc.stmts, stmt{isTask: true, t: t})
 	}
 	for i, d := range decls {
